@@ -130,8 +130,19 @@ func (hs *hist) crash(lv *live, r *rand.Rand) (snapshot, []cutPlan, []cutPlan, e
 				return nil, nil, nil, harnessErr{"FlushAndSync: " + err.Error()}
 			}
 			for _, e := range lv.drain() {
-				if e.kind != evSynced {
-					return nil, nil, nil, harnessErr{"unexpected rotation / pruning during the in-flight flush"}
+				switch {
+				case e.kind == evSynced:
+				case e.kind == evRemoved && m.file(e.name) == nil:
+					// A pruned index that a reader re-created as an empty file
+					// (GroupReader opens with O_CREATE at the stale MinIndex) and the
+					// ticker removed again.  group.removed is hit after the unlink and
+					// the model ignores such files, so its directory check can be
+					// satisfied before the event arrives: it may show up here, late.
+					hs.c.Count("empty_recreated_files_removed", 1)
+					hs.c.Count("empty_recreated_file_removals_seen_late_at_the_crash", 1)
+				default:
+					return nil, nil, nil, harnessErr{fmt.Sprintf("unexpected event during the in-flight flush: kind %d file %s size %d (head logical %d, limits %d/%d, directory total %d + %d, numbered %d)",
+						e.kind, e.name, e.size, h.Logical, m.HeadLimit, m.TotalLimit, di.total, grow, di.numbered)}
 				}
 			}
 			h.Size = statSize(headPath(lv.dir))
